@@ -14,7 +14,8 @@ ASAN_ENV = ("exitcode=77:detect_leaks=0:abort_on_error=0:detect_stack_use_after_
             "handle_abort=1:symbolize=1:fast_unwind_on_malloc=1:malloc_context_size=5")
 UBSAN_ENV = "print_stacktrace=1:halt_on_error=1:exitcode=77"
 
-REPO_RE = re.compile(r"#\d+ 0x[0-9a-f]+ in ([^\n]+?) (/repo)/(\S+?):(\d+)")
+_REPO = os.environ.get("VERIF_REPO", "/repo").rstrip("/")
+REPO_RE = re.compile(r"#\d+ 0x[0-9a-f]+ in ([^\n]+?) (%s)/(\S+?):(\d+)" % re.escape(_REPO))
 FRAME_RE = re.compile(r"#\d+ 0x[0-9a-f]+ in (\S+)")
 
 
@@ -64,7 +65,7 @@ def parse_sanitizer(text):
                 k = re.sub(r"[^a-z]+", "-", msg.lower())[:40]
             kind = "ubsan:" + k
             f = m.group(1)
-            f = re.sub(r"^(/repo)/", "", f)
+            f = re.sub(r"^(%s)/" % re.escape(_REPO), "", f)
             fm = REPO_RE.search(text)
             func = fm.group(1) if fm else "?"
             func = re.sub(r"\(.*", "", func)
